@@ -420,9 +420,22 @@ impl QueryRouter {
     fn is_mutation_query(q: &sqlparser::ast::Query) -> bool {
         use sqlparser::ast::*;
 
+        // Data-modifying CTEs: WITH x AS (INSERT ... RETURNING ...) SELECT ...
+        if let Some(with) = &q.with {
+            if with
+                .cte_tables
+                .iter()
+                .any(|cte| Self::is_mutation_query(&cte.query))
+            {
+                return true;
+            }
+        }
+
         match q.body.as_ref() {
             SetExpr::Insert(_) => true,
             SetExpr::Update(_) => true,
+            // SELECT ... INTO creates a table.
+            SetExpr::Select(select) => select.into.is_some(),
             SetExpr::Query(q) => Self::is_mutation_query(q),
             _ => false,
         }
@@ -538,6 +551,8 @@ impl QueryRouter {
                     let has_mutation = Self::is_mutation_query(query);
 
                     if has_locks || has_mutation {
+                        // A later plain SELECT in the same message must not undo this.
+                        visited_write_statement = true;
                         self.active_role = Some(Role::Primary);
                     } else if !visited_write_statement {
                         // If we already visited a write statement, we should be going to the primary.
